@@ -7,6 +7,7 @@ package keeper_test
 
 import (
 	"fmt"
+	"math"
 	"strings"
 	"testing"
 	"time"
@@ -198,6 +199,33 @@ func TestVerifScenario_C05_reward_block_division_by_zero(t *testing.T) {
 
 func sPlan(k *keeper.Keeper, ctx sdk.Context, a sdk.AccAddress, space int64) {
 	k.SetStoragePaymentInfo(ctx, types.StoragePaymentInfo{Start: ctx.BlockTime(), End: ctx.BlockTime().Add(time.Hour * 24 * 60), SpaceAvailable: space, SpaceUsed: 0, Address: a.String()})
+}
+
+// C05/C07: a plan-paid post whose footprint does not fit the plan must be refused even when used + footprint does not
+// fit an int64 (FileSize*MaxProofs may be as large as MaxInt64 and still pass ValidateBasic).
+func TestVerifScenario_C07_plan_usage_wraps(t *testing.T) {
+	k, _, ctx := sSetup(t)
+	ms := keeper.NewMsgServerImpl(*k)
+	a := sAddr(1)
+	sPlan(k, ctx, a, 1_000_000_000)
+	post := func(m string, size int64) error {
+		msg := &types.MsgPostFile{Creator: a.String(), Merkle: []byte(m), FileSize: size, MaxProofs: 1, ProofType: 0, Note: "{}"}
+		if err := msg.ValidateBasic(); err != nil {
+			return err
+		}
+		_, err := ms.PostFile(sdk.WrapSDKContext(ctx), msg)
+		return err
+	}
+	if err := post("small", 1); err != nil {
+		fmt.Println("SCENARIO-ERROR", err)
+		return
+	}
+	if err := post("big", math.MaxInt64); err != nil {
+		fmt.Println("SCENARIO-OK a post of MaxInt64 bytes into a 1 GB plan is refused:", err)
+		return
+	}
+	pi, _ := k.GetStoragePaymentInfo(ctx, a.String())
+	fmt.Printf("SCENARIO-VIOLATION a post of %d bytes into a plan of %d bytes with 1 byte used was accepted; the plan now reports %d bytes used\n", int64(math.MaxInt64), pi.SpaceAvailable, pi.SpaceUsed)
 }
 
 // C07: deleting a plan-paid file must return its footprint to the plan.
